@@ -103,7 +103,13 @@ fn observed<T>(r: &Result<T, ParserError>) -> (Verdict, Option<String>) {
 }
 
 /// judge one input through both entry points; returns the verdict class of the initial parse
+const BASE2: &str = "<a\u{fffd}b a\u{fffd}b=\"1\" p:id=\"2\"><a\u{fffd}b/><root/></a\u{fffd}b>";
+
 pub fn judge(bytes: &[u8], rank: u64, out: &mut Vec<Violation>) -> String {
+    judge_with(bytes, rank, out, true)
+}
+
+pub fn judge_with(bytes: &[u8], rank: u64, out: &mut Vec<Violation>, extra_base: bool) -> String {
     let base = match subject::parse(b"<a x=\"1\"><b/></a>") {
         Ok(b) => b,
         Err(e) => {
@@ -116,16 +122,25 @@ pub fn judge(bytes: &[u8], rank: u64, out: &mut Vec<Violation>) -> String {
             return "ok".into();
         }
     };
+    // second starting point: names that contain U+FFFD (what a lossy decoding of invalid bytes yields),
+    // a prefixed attribute and an element literally called root
+    let base2 = subject::parse(BASE2.as_bytes()).ok();
     let mut class = String::new();
-    for initial in [true, false] {
+    for mode in 0..3 {
+        let initial = mode == 0;
+        if mode == 2 && (!extra_base || base2.is_none()) {
+            continue;
+        }
         let want = expected(bytes, initial);
-        let entry = if initial { "into_struct" } else { "extend_struct" };
-        let got = subject::guarded(|| {
-            if initial {
-                subject::parse(bytes)
-            } else {
-                subject::extend(base.clone(), bytes)
-            }
+        let entry = match mode {
+            0 => "into_struct",
+            1 => "extend_struct",
+            _ => "extend_struct (onto the U+FFFD base)",
+        };
+        let got = subject::guarded(|| match mode {
+            0 => subject::parse(bytes),
+            1 => subject::extend(base.clone(), bytes),
+            _ => subject::extend(base2.clone().unwrap(), bytes),
         });
         let mk = |kind: &str, msg: String| Violation {
             class: kind.to_string(),
@@ -159,21 +174,69 @@ pub fn judge(bytes: &[u8], rank: u64, out: &mut Vec<Violation>) -> String {
     class
 }
 
+/// repeated elements whose occurrences carry attributes from a pool with equal local names
+pub fn special_docs() -> Vec<Vec<u8>> {
+    let elements = ["root", "a", "p:a", "a\u{fffd}b"];
+    let attrs = ["id", "a:id", "b:id", "xml:lang", "lang", "xmlns:a"];
+    let mut out = Vec::new();
+    for e in elements {
+        for x in attrs {
+            for y in attrs {
+                out.push(format!("<r><{e} {x}=\"1\"/><{e} {y}=\"2\"/></r>", e = e, x = x, y = y).into_bytes());
+                if x != y {
+                    out.push(format!("<r><{e} {x}=\"1\" {y}=\"2\"/><{e}/></r>", e = e, x = x, y = y).into_bytes());
+                }
+                if x < y {
+                    out.push(format!("<{e} {x}=\"1\"><{e} {y}=\"2\"><{e}/></{e}></{e}>", e = e, x = x, y = y).into_bytes());
+                }
+            }
+        }
+    }
+    out
+}
+
+/// a valid name containing U+FFFD first, then the same name with invalid bytes in place of U+FFFD
+pub fn lossy_twins() -> Vec<Vec<u8>> {
+    let mut out = Vec::new();
+    let good = "a\u{fffd}b".as_bytes().to_vec();
+    for inv in [&b"\xFF"[..], &b"\xC3"[..], &b"\xE2\x82"[..], &b"\xEF\xBF"[..]] {
+        let mut bad = b"a".to_vec();
+        bad.extend_from_slice(inv);
+        bad.push(b'b');
+        let cat = |parts: &[&[u8]]| -> Vec<u8> { parts.iter().flat_map(|p| p.iter().copied()).collect() };
+        for (first, second) in [(&good, &bad), (&bad, &good)] {
+            out.push(cat(&[b"<r><", first, b"/><", second, b"/></r>"]));
+            out.push(cat(&[b"<r><", first, b" k=\"1\"/><", second, b"><c/></", second, b"></r>"]));
+            out.push(cat(&[b"<", first, b"><", first, b"/><", second, b"/></", first, b">"]));
+            out.push(cat(&[b"<r ", first, b"=\"1\" ", second, b"=\"2\"/>"]));
+            out.push(cat(&[b"<r><e ", first, b"=\"1\"/><e ", second, b"=\"2\"/></r>"]));
+            out.push(cat(&[b"<r><e>", first, b"</e><e>", second, b"</e></r>"]));
+            out.push(cat(&[b"<", second, b"/>"]));
+            out.push(cat(&[b"<", second, b"><", first, b"/></", second, b">"]));
+        }
+    }
+    out
+}
+
 pub fn spaces(ctx: &Ctx) -> Vec<Box<dyn InputSpace>> {
     let mut cfg = SpaceCfg::plain(ctx.tier.pick(3, 3));
     cfg.kinds = vec![Kind::Text, Kind::CData, Kind::Comment, Kind::PI];
     let docs: Vec<Vec<u8>> = materialise(cfg).into_iter().map(|d| d.xml.into_bytes()).collect();
-    let mut v: Vec<Box<dyn InputSpace>> = vec![
-        Box::new(Bytes {
-            alphabet: BYTE_ALPHABET.to_vec(),
-            max_len: ctx.tier.pick(6, 7),
-        }),
-        Box::new(Tokens { tokens: xml_tokens(), max_len: 5 }),
-        Box::new(Edits::new(docs, false)),
-    ];
+    // the small targeted spaces first: a wall budget that runs out cuts the big exhaustive spaces, not these
+    let mut v: Vec<Box<dyn InputSpace>> = Vec::new();
     // long names / values / character data with a multi-byte character at every offset, and deep nesting
     v.push(Box::new(super::c07::Listed(super::c07::long_inputs(ctx.tier.pick(300, 1100)))));
+    // special names: prefixed attributes that differ in the prefix only, an element called root, names with
+    // U+FFFD next to names with invalid bytes at the same place; every truncation and single-byte edit
+    v.push(Box::new(Edits::new(special_docs(), false)));
+    v.push(Box::new(super::c07::Listed(lossy_twins())));
     v.push(Box::new(super::c07::Listed((0..(super::c07::MAX_DEPTH * super::c07::DEPTH_TEMPLATES) as u64).map(super::c07::depth_case).collect())));
+    v.push(Box::new(Edits::new(docs, false)));
+    v.push(Box::new(Tokens { tokens: xml_tokens(), max_len: 5 }));
+    v.push(Box::new(Bytes {
+        alphabet: BYTE_ALPHABET.to_vec(),
+        max_len: ctx.tier.pick(6, 7),
+    }));
     if ctx.tier == crate::ctx::Tier::Thorough {
         let mut cfg2 = SpaceCfg::plain(2);
         cfg2.kinds = vec![Kind::Text, Kind::CData, Kind::Comment];
@@ -187,35 +250,6 @@ pub fn run(ctx: &Ctx) {
     ctx.set("exhaustive", json!(true));
     let mut evals = 0u64;
     let mut classes: BTreeMap<String, u64> = BTreeMap::new();
-    for (si, sp) in spaces(ctx).iter().enumerate() {
-        let res = par_for(
-            sp.len(),
-            ctx.threads,
-            2048,
-            Some(ctx.deadline),
-            |_| BTreeMap::<String, u64>::new(),
-            |acc, i| {
-                let bytes = sp.get(i);
-                let mut vs = Vec::new();
-                let class = judge(&bytes, ((si as u64) << 48) | i, &mut vs);
-                ctx.report_all(vs);
-                *acc.entry(class).or_insert(0) += 1;
-                if ctx.sample_hash_qualifies(((si as u64) << 48) | i) {
-                    ctx.sample(((si as u64) << 48) | i, || json!({"input": String::from_utf8_lossy(&bytes), "hex": hex(&bytes), "expected": format!("{:?}", expected(&bytes, true))}));
-                }
-            },
-        );
-        for a in res.accs {
-            for (k, v) in a {
-                *classes.entry(k).or_insert(0) += v;
-            }
-        }
-        evals += res.processed * 2;
-        ctx.push("spaces", json!({"space": sp.describe(), "size": sp.len(), "visited": res.processed}));
-        if !res.complete {
-            ctx.set("exhaustive", json!(false));
-        }
-    }
     // the same verdicts through buffered readers with tiny capacities (the verdict must not depend
     // on how the bytes arrive): token strings up to length 3, with and without leading blank lines
     let toks = Tokens { tokens: xml_tokens(), max_len: 3 };
@@ -248,12 +282,41 @@ pub fn run(ctx: &Ctx) {
     );
     evals += res.accs.iter().sum::<u64>();
     ctx.push("spaces", json!({"space": "token strings of length <= 3, with and without four leading newlines, through BufReader capacities 1, 2, 4", "size": toks.len() * 2, "visited": res.processed}));
+    for (si, sp) in spaces(ctx).iter().enumerate() {
+        let res = par_for(
+            sp.len(),
+            ctx.threads,
+            2048,
+            Some(ctx.deadline),
+            |_| BTreeMap::<String, u64>::new(),
+            |acc, i| {
+                let bytes = sp.get(i);
+                let mut vs = Vec::new();
+                let class = judge_with(&bytes, ((si as u64) << 48) | i, &mut vs, si < 4);
+                ctx.report_all(vs);
+                *acc.entry(class).or_insert(0) += 1;
+                if ctx.sample_hash_qualifies(((si as u64) << 48) | i) {
+                    ctx.sample(((si as u64) << 48) | i, || json!({"input": String::from_utf8_lossy(&bytes), "hex": hex(&bytes), "expected": format!("{:?}", expected(&bytes, true))}));
+                }
+            },
+        );
+        for a in res.accs {
+            for (k, v) in a {
+                *classes.entry(k).or_insert(0) += v;
+            }
+        }
+        evals += res.processed * if si < 4 { 3 } else { 2 };
+        ctx.push("spaces", json!({"space": sp.describe(), "size": sp.len(), "visited": res.processed}));
+        if !res.complete {
+            ctx.set("exhaustive", json!(false));
+        }
+    }
     ctx.set("evaluations", json!(evals));
     ctx.set("distinct_nontrivial", json!(classes.len()));
     ctx.set("verdict_classes", json!(classes));
     ctx.set(
         "rule",
-        json!("every input of the spaces is given to into_struct and to extend_struct (onto <a x=\"1\"><b/></a>) with a default reader; the result must agree in Ok/Err, variant and payload (Debug of the carried error; byte position for syntax errors) with an independent pass over a second default reader's events: first reader error -> QuickXmlError(position, error); on Start/Empty: name not UTF-8 -> FromUtf8Error, attributes left to right: iterator error -> AttrError, key not UTF-8 -> FromUtf8Error; Text/CData not UTF-8 -> FromUtf8Error; no element at Eof -> ParsingError for into_struct only; else Ok. distinct_nontrivial = number of distinct expected verdict classes met (see verdict_classes)"),
+        json!("every input of the spaces is given to into_struct and to extend_struct (onto <a x=\"1\"><b/></a>; the listed spaces also onto a second value whose names contain U+FFFD, a prefixed attribute and a child called root) with a default reader; the result must agree in Ok/Err, variant and payload (Debug of the carried error; byte position for syntax errors) with an independent pass over a second default reader's events: first reader error -> QuickXmlError(position, error); on Start/Empty: name not UTF-8 -> FromUtf8Error, attributes left to right: iterator error -> AttrError, key not UTF-8 -> FromUtf8Error; Text/CData not UTF-8 -> FromUtf8Error; no element at Eof -> ParsingError for into_struct only; else Ok. distinct_nontrivial = number of distinct expected verdict classes met (see verdict_classes)"),
     );
     ctx.assume("quick-xml 0.37.5 event stream is the definition of 'the underlying reader reports'");
 }
